@@ -451,3 +451,122 @@ pub fn gen_reject(rng: &mut Rng, g: Geom, ids: &mut IdGen, t: u32, topics: &mut 
         }
     }
 }
+
+
+/// C12: fill and consume whole files with the reclaimer running at its fastest schedule.
+pub fn gen_reclaim(seed: u64, property: &str) -> Plan {
+    let mut rng = Rng::new(mix(seed, 0xC12));
+    let g = SMALL;
+    let n_topics = rng.range(1, 4) as usize;
+    let mut pool: Vec<&str> = TOPIC_POOL[..5].to_vec();
+    let mut topics = Vec::new();
+    for _ in 0..n_topics {
+        let i = rng.below(pool.len() as u64) as usize;
+        topics.push(pool.remove(i).to_string());
+    }
+    let alo = if rng.chance(0.25) { rng.range(1, 4) as u32 } else { 0 };
+    let backend = rng.pick(&["fd", "fd", "mmap"]).to_string();
+    let fsync = "ms:1".to_string();
+    let n_inc = rng.range(1, 3) as usize;
+    let mut ids = IdGen(0);
+    let mut incarnations = Vec::new();
+    let clock_ms: u64 = 1_700_000_000_000 + rng.below(1_000_000);
+    let mut outstanding: Vec<usize> = vec![0; n_topics];
+    let open_op = |ids: &mut IdGen| Op { id: ids.next(), kind: OpKind::Open { inst: 0, key: Some("k".into()), dir: "d".into(), alo, fsync: fsync.clone() } };
+    // lazy consumers leave data behind; eager ones drain often
+    let eager = rng.chance(0.6);
+    for inc_i in 0..n_inc {
+        let mut ops = vec![open_op(&mut ids)];
+        let rounds = rng.range(3, 9);
+        for _ in 0..rounds {
+            // produce a burst that allocates several blocks
+            let burst = rng.range(4, 14);
+            for _ in 0..burst {
+                let t = rng.below(n_topics as u64) as u32;
+                if rng.chance(0.25) {
+                    let n = rng.range(2, 5);
+                    let lens: Vec<u64> = (0..n).map(|_| rng.range(g.block / 6, g.block / 2)).collect();
+                    outstanding[t as usize] += lens.len();
+                    ops.push(Op { id: ids.next(), kind: OpKind::BatchAppend { inst: 0, topic: t, lens } });
+                } else {
+                    let len = match rng.below(6) {
+                        0 => rng.range(24, 300),
+                        1 => g.block - 256 - rng.below(3),
+                        2 => g.block + g.block / 3,
+                        _ => rng.range(g.block / 4, g.block / 2),
+                    };
+                    outstanding[t as usize] += 1;
+                    ops.push(Op { id: ids.next(), kind: OpKind::Append { inst: 0, topic: t, len } });
+                }
+            }
+            // consume (fully, partly, or not at all), with peeks and empty polls mixed in
+            for t in 0..n_topics as u32 {
+                let mode = if eager { rng.below(4) } else { rng.below(7) };
+                match mode {
+                    0 | 1 => {
+                        ops.push(Op { id: ids.next(), kind: OpKind::Drain { inst: 0, topic: t, mode: rng.pick(&["next", "mix", "batch"]).to_string(), max: 3000 } });
+                        outstanding[t as usize] = 0;
+                        for _ in 0..rng.below(4) {
+                            // repeated empty polls at an exact block end
+                            if rng.chance(0.5) {
+                                ops.push(Op { id: ids.next(), kind: OpKind::ReadNext { inst: 0, topic: t, checkpoint: rng.chance(0.5) } });
+                            } else {
+                                ops.push(Op { id: ids.next(), kind: OpKind::BatchRead { inst: 0, topic: t, max_bytes: 1000, checkpoint: rng.chance(0.5), start: None } });
+                            }
+                        }
+                    }
+                    2 => {
+                        for _ in 0..rng.range(1, 6) {
+                            ops.push(Op { id: ids.next(), kind: OpKind::ReadNext { inst: 0, topic: t, checkpoint: true } });
+                        }
+                    }
+                    3 => {
+                        ops.push(Op { id: ids.next(), kind: OpKind::BatchRead { inst: 0, topic: t, max_bytes: rng.range(g.block / 2, 3 * g.block), checkpoint: true, start: None } });
+                        for _ in 0..rng.below(3) {
+                            ops.push(Op { id: ids.next(), kind: OpKind::ReadNext { inst: 0, topic: t, checkpoint: false } });
+                        }
+                    }
+                    _ => {
+                        // peeks only
+                        for _ in 0..rng.range(1, 4) {
+                            ops.push(Op { id: ids.next(), kind: OpKind::BatchRead { inst: 0, topic: t, max_bytes: g.block, checkpoint: false, start: None } });
+                        }
+                    }
+                }
+            }
+            if rng.chance(0.6) {
+                // let the reclaimer complete a cleanup cycle (1000 ticks of 1 ms)
+                ops.push(Op { id: ids.next(), kind: OpKind::Sleep { ms: *rng.pick(&[1050u64, 1200, 2100]) } });
+                ops.push(Op { id: ids.next(), kind: OpKind::ListDir { dir: "d/k".into() } });
+            }
+            if rng.chance(0.08) {
+                ops.push(Op { id: ids.next(), kind: OpKind::Close { inst: 0 } });
+                ops.push(open_op(&mut ids));
+            }
+        }
+        let last = inc_i + 1 == n_inc;
+        if last {
+            for t in 0..n_topics as u32 {
+                ops.push(Op { id: ids.next(), kind: OpKind::Drain { inst: 0, topic: t, mode: "next".into(), max: 6000 } });
+            }
+            ops.push(Op { id: ids.next(), kind: OpKind::Sleep { ms: 1100 } });
+            ops.push(Op { id: ids.next(), kind: OpKind::ListDir { dir: "d/k".into() } });
+        } else {
+            ops.push(Op { id: ids.next(), kind: OpKind::Close { inst: 0 } });
+        }
+        let mut sched = gen_sched(&mut rng, 1);
+        // the reclaimer needs simulated time: favour schedules in which timers fire
+        sched.ns_per_step = *rng.pick(&[20_000u64, 50_000, 500_000]);
+        incarnations.push(Incarnation {
+            sched,
+            clock_start_ms: clock_ms,
+            clock_delta_ms: if inc_i == 0 { None } else { Some(rng.range(1, 5000) as i64) },
+            backend: backend.clone(),
+            phases: vec![Phase { threads: vec![ops] }],
+            faults: vec![],
+            buggify: vec![],
+            trace_io: false,
+        });
+    }
+    Plan { v: 1, property: property.into(), profile: "reclaim".into(), seed, geometry: "small".into(), topics, incarnations }
+}
